@@ -293,6 +293,12 @@ func vcRun(t *testing.T, dbPath string, cfg Config, steps []vcStep, verify bool,
 				continue
 			}
 			_, _, err = v.InjectForeignTransaction(s.txn)
+		case "conflict":
+			if s.blk.Head.BkSeq <= head { // its inputs are spent by now: nobody would offer it any more
+				log(vcEv{Ev: "skip", Kind: "conflict"})
+				continue
+			}
+			_, _, err = v.InjectForeignTransaction(s.txn)
 		case "refresh":
 			_, err = v.RefreshUnconfirmed()
 		case "remove":
@@ -420,17 +426,37 @@ func TestVerifCrash(t *testing.T) {
 		now += 3600 * uint64(10+rng.Intn(50))
 		uxs, _ := P.v.GetAllUnspentOutputs()
 		head := P.head(t)
-		var in coin.UxOut
+		var in, in2 coin.UxOut
 		for _, ux := range uxs {
 			if h, err := ux.CoinHours(head.Head.Time); err == nil && h >= 4 && ux.Body.Coins > in.Body.Coins {
 				in = ux
 			}
 		}
+		for _, ux := range uxs {
+			if ux.Hash() != in.Hash() && ux.Body.Coins >= 1e6 && ux.Body.Coins > in2.Body.Coins {
+				in2 = ux
+			}
+		}
+		// every second block spends two outputs, and a transaction that spends the same two differently is pooled before it:
+		// once the block is there that transaction has lost both of its inputs
+		withConflict := i%2 == 1 && in2.Body.Coins > 0
 		h, _ := in.CoinHours(head.Head.Time)
-		var txn coin.Transaction
+		var txn, conflict coin.Transaction
 		_ = txn.PushInput(in.Hash())
-		txn.Out = append(txn.Out, coin.TransactionOutput{Address: addr, Coins: in.Body.Coins - 1e6, Hours: h / 4}, coin.TransactionOutput{Address: addr, Coins: 1e6, Hours: h / 8})
-		txn.SignInputs([]cipher.SecKey{osec})
+		coins := in.Body.Coins
+		keys := []cipher.SecKey{osec}
+		if withConflict {
+			_ = txn.PushInput(in2.Hash())
+			coins += in2.Body.Coins
+			keys = append(keys, osec)
+			_ = conflict.PushInput(in2.Hash())
+			_ = conflict.PushInput(in.Hash())
+			conflict.Out = append(conflict.Out, coin.TransactionOutput{Address: addr, Coins: coins, Hours: h / 5})
+			conflict.SignInputs(keys)
+			_ = conflict.UpdateHeader()
+		}
+		txn.Out = append(txn.Out, coin.TransactionOutput{Address: addr, Coins: coins - 1e6, Hours: h / 4}, coin.TransactionOutput{Address: addr, Coins: 1e6, Hours: h / 8})
+		txn.SignInputs(keys)
 		_ = txn.UpdateHeader()
 		b, err := P.v.CreateBlockFromTxns(coin.Transactions{txn}, now)
 		if err != nil {
@@ -446,6 +472,9 @@ func TestVerifCrash(t *testing.T) {
 			if rng.Intn(2) == 0 {
 				steps = append(steps, vcStep{kind: "refresh"})
 			}
+		}
+		if withConflict {
+			steps = append(steps, vcStep{kind: "conflict", blk: sb, txn: conflict})
 		}
 		steps = append(steps, vcStep{kind: "block", blk: sb})
 		if rng.Intn(3) == 0 {
